@@ -274,7 +274,7 @@ def r5(ctx, R):
 
 
 def r6(ctx, R):
-    R.rule("C12.R6", "context filters: after CALL only callable candidates, in USE only modules, ONLY-list test on the lower-cased name, renamed entities tested under their local name", floor=4, confirmed=4)
+    R.rule("C12.R6", "context filters: after CALL only callable candidates, in USE only modules, ONLY-list test on the lower-cased name, renamed entities tested under their local name", floor=2, confirmed=4)
     h = handler(ctx)
     from .c13 import explicit_norm
 
